@@ -151,6 +151,9 @@ type ConnRec struct {
 type World struct {
 	r     *Run
 	mu    sync.Mutex
+	// SendBuf: client-to-server bytes that may be outstanding (written, not yet read by the server)
+	// before the client's Write blocks; 0 = unlimited
+	SendBuf int
 	Hosts map[string]*Host
 	Conns []*ConnRec
 	// FaultPlan maps a connection ordinal to the fault it suffers.
@@ -230,6 +233,7 @@ func (w *World) Dial(info *simnet.DialInfo) (simnet.DialOutcome, func(*simnet.En
 		sort.Ints(cr.chunks)
 	}
 	cr.Outcome = "connected"
+	info.SendBuf = w.SendBuf
 	return simnet.DialOK, func(ep *simnet.Endpoint) { w.serve(h, cr, ep) }
 }
 
